@@ -21,7 +21,7 @@ import (
 	"verif/vk"
 )
 
-const c12Rule = "streams = junk msg junk ... msg tail (messages 30 B - 20 kB serialised by fixwire, data fields with SOH and '10=' look-alikes inside the counted body, junk without a BeginString marker, short or in runs sized around multiples of the 4096-byte buffer) or fragment soups of FIX delimiters; partitions = 1 byte, fixed sizes, generated split points aimed inside '8=', '9=', length digits, '10=' and checksum, chunks larger than the 4096-byte buffer, EOF delivered with data; non-trivial = >=2 messages and a split inside a tag/length/checksum, or a message larger than the buffer; distinct = distinct (stream, partition)"
+const c12Rule = "streams = junk msg junk ... msg tail (messages 30 B - 20 kB serialised by fixwire, data fields with SOH and '10=' look-alikes inside the counted body, junk without a BeginString marker, short or in runs sized around multiples of the 4096-byte buffer) or fragment soups of FIX delimiters; partitions = 1 byte, fixed sizes, generated split points aimed inside '8=', '9=', length digits, '10=' and checksum, chunks larger than the 4096-byte buffer, reads that return nothing and no error between chunks, EOF delivered with data; non-trivial = >=2 messages and a split inside a tag/length/checksum, or a message larger than the buffer; distinct = distinct (stream, partition)"
 
 func c12() *stats.Collector {
 	c := stats.Get("C12")
@@ -37,7 +37,11 @@ type chunkReader struct {
 	reads       int
 	limit       int // reads allowed (0 = unbounded)
 	eofWithData bool
+	lastEmpty   bool
 }
+
+// emptyRead in the size list stands for one read that returns (0, nil).
+const emptyRead = -1
 
 // readBoundExceeded is what the reader throws when it is asked for more reads than any
 // terminating framer needs (a loop that keeps reading an exhausted stream never comes back to the
@@ -60,7 +64,22 @@ func (r *chunkReader) Read(p []byte) (int, error) {
 		if len(r.sizes) > 0 {
 			n = r.sizes[r.i%len(r.sizes)]
 			r.i++
+			if n == emptyRead {
+				if !r.lastEmpty {
+					// a read that brings nothing and no error (io.Reader allows it; bufio passes it on)
+					r.lastEmpty = true
+					return 0, nil
+				}
+				for k := 0; k < len(r.sizes) && n == emptyRead; k++ { // never two in a row
+					n = r.sizes[r.i%len(r.sizes)]
+					r.i++
+				}
+				if n == emptyRead {
+					n = 0
+				}
+			}
 		}
+		r.lastEmpty = false
 		if n <= 0 {
 			n = len(r.data)
 		}
@@ -283,9 +302,20 @@ func c12Property(t *rapid.T) {
 		}
 	}
 	sizes, cuts := genPartition(t, stream, spans)
+	emptyReads := 0
+	if rapid.IntRange(0, 3).Draw(t, "with-empty-reads") == 0 {
+		for k := rapid.IntRange(1, 4).Draw(t, "empty-reads"); k > 0; k-- {
+			at := rapid.IntRange(0, len(sizes)).Draw(t, "empty-read-at")
+			sizes = append(sizes[:at], append([]int{emptyRead}, sizes[at:]...)...)
+			emptyReads++
+		}
+	}
 	eofWith := rapid.Bool().Draw(t, "eof-with-data")
 	c.Eval()
 	c.Class("family:" + family)
+	if emptyReads > 0 {
+		c.Class("partition-with-empty-reads")
+	}
 
 	ref := runFramer(stream, nil, false)
 	got := runFramer(stream, sizes, eofWith)
